@@ -63,7 +63,7 @@ SQLITE_REGISTRATION_MEANING = {
     "arccos": {"numpy.arccos"}, "arcsin": {"numpy.arcsin"}, "arctan": {"numpy.arctan"},
     "arccosh": {"numpy.arccosh"}, "arcsinh": {"numpy.arcsinh"}, "arctanh": {"numpy.arctanh"},
     "floor": {"math.floor", "numpy.floor"}, "ceil": {"math.ceil", "numpy.ceil"}, "ceiling": {"math.ceil", "numpy.ceil"},
-    "round": {"numpy.round", "numpy.around"},
+    "round": {"numpy.round", "numpy.around", "round"},  # Python's one argument round() rounds halves to even as numpy does
 }
 
 # python functions that return an int for a float argument (numpy's counterparts keep the float type); registered raw as a SQLite
